@@ -42,10 +42,10 @@ def run(cmd, timeout, cwd=None):
 class Built:
     """a built model of one configuration in a work directory"""
     def __init__(self, cfg, wd):
-        self.cfg = cfg; self.wd = wd
+        self.cfg = cfg; self.wd = os.path.join(wd, cfg['name']); os.makedirs(self.wd, exist_ok=True)
         self.model = gen.Model(cfg)
         self.text = self.model.build()
-        self.path = os.path.join(wd, 'model_%s.c' % cfg['name'])
+        self.path = os.path.join(self.wd, 'model_%s.c' % cfg['name'])
         open(self.path, 'w').write(self.text)
         self.errors = {f.cname: f.error for f in self.model.fns if f.error}
         self.report = self.model.report()
